@@ -485,7 +485,14 @@ func ruleR12_4(c *Check) {
 	r := c.Rule("R12.4", "E1", 1, "runCompactDef installs the new tables in nextLevel (replaceTables) before removing the inputs from thisLevel (deleteTables)",
 		"readers visit levels top-down without a global lock: removing first opens a window in which a key is in neither level")
 	f := w.F("badger.levelsController.runCompactDef")
-	r.DomAll(f, "deleteTables", selCallName(w, "badger.levelHandler.deleteTables"), 0, selCallName(w, "badger.levelHandler.replaceTables"), 0)
+	// (the two calls may sit together in a helper that runCompactDef calls at one place)
+	seen := map[*Fn]bool{}
+	for _, o := range f.SitesInl(selCallName(w, "badger.levelHandler.deleteTables")) {
+		if !seen[o.SiteFn] {
+			seen[o.SiteFn] = true
+			r.DomAll(o.SiteFn, "deleteTables", selCallName(w, "badger.levelHandler.deleteTables"), 0, selCallName(w, "badger.levelHandler.replaceTables"), 0)
+		}
+	}
 }
 
 func ruleR12_5(c *Check) {
